@@ -17,6 +17,20 @@ struct Params {
     unsigned threads = 1;
     size_t oversampling = 10;
     unsigned layout = 0; // target mergesort_iters only: deque front offset / guard margins / build order (not part of the statement's domain)
+    // ---- target mergesort_forms only (defaults = the one call form the other targets use) ----------------------
+    // call form: which of the public spellings of the same sort is used (C06_run.hpp)
+    //   entry 0 = parallel_mergesort / stable_parallel_mergesort, 1 = parallel_mergesort_base<Stable> (the documented "main call")
+    //   nargs 5 = (begin, end, comp, num_threads, mwmsa), 4 = mwmsa defaulted (MWMSA_DEFAULT, documented = exact),
+    //         3 = num_threads defaulted as well (std::thread::hardware_concurrency()), 2 = comparator defaulted too (std::less<value_type>)
+    //   mwmsa_default_spelled: 5-argument form with the enumerator MWMSA_DEFAULT instead of MWMSA_EXACT
+    //   cmp_cat: value category of the comparator argument: 0 non-const lvalue, 1 const lvalue, 2 prvalue (fresh copy), 3 xvalue (std::move of a copy)
+    //   threads_arg: if non-zero the num_threads argument actually passed (values far above n, up to SIZE_MAX; `threads` is then min(threads_arg, UINT_MAX))
+    //   knobs: values for the tuning globals that (stable_)parallel_mergesort does NOT consult according to their documentation
+    //          (parallel_multiway_merge_force_sequential / _force_parallel / _minimal_k / _minimal_n); bit 0 force_sequential, bit 1 force_parallel,
+    //          bits 2-3 minimal_k in {2, 0, 1000000, SIZE_MAX}, bits 4-5 minimal_n in {1000, 0, 1, SIZE_MAX}
+    unsigned entry = 0, nargs = 5, cmp_cat = 0, knobs = 0;
+    bool mwmsa_default_spelled = false;
+    size_t threads_arg = 0;
 };
 
 //! type-neutral element: key decides the order, tag = original index
@@ -54,5 +68,19 @@ Lifetime sort_deque_kt(const Params& p, std::vector<Item>& items);
 Lifetime sort_rev_kt(const Params& p, std::vector<Item>& items);
 Lifetime sort_deque_str(const Params& p, std::vector<Item>& items);
 Lifetime sort_ptr_str(const Params& p, std::vector<Item>& items);
+
+// Target mergesort_forms: further comparator FORMS (the functions above use function objects with a direction flag).
+// The std::less ones require !p.greater and are the only ones with the 2-argument call form (p.nargs == 2); the
+// std::greater one requires p.greater.
+//   sort_rec_less          the heap-owning record (live-instance counter) ordered by its operator<, std::less<Rec> (defaulted or spelled)
+//   sort_ptr_kl_less       (key,tag) with operator< through raw pointers, std::less (defaulted or spelled)
+//   sort_vec_kl_fnptr      (key,tag) in a std::vector, comparator = pointer to function
+//   sort_vec_kl_lambda     (key,tag) in a std::vector, comparator = lambda capturing the direction
+//   sort_deque_kl_greater  (key,tag) with operator> in a std::deque, std::greater
+Lifetime sort_rec_less(const Params& p, std::vector<Item>& items);
+Lifetime sort_ptr_kl_less(const Params& p, std::vector<Item>& items);
+Lifetime sort_vec_kl_fnptr(const Params& p, std::vector<Item>& items);
+Lifetime sort_vec_kl_lambda(const Params& p, std::vector<Item>& items);
+Lifetime sort_deque_kl_greater(const Params& p, std::vector<Item>& items);
 
 } // namespace c06
